@@ -240,6 +240,24 @@ pub fn write_bytes(lib: &GdsLibrary) -> Result<Vec<u8>, ()> {
         Err(_) => Err(()),
     }
 }
+/// a destination that, like a pipe or a compressing encoder, takes at most `k` bytes per `write` call
+pub struct ChunkySink { pub buf: Vec<u8>, pub k: usize }
+impl std::io::Write for ChunkySink {
+    fn write(&mut self, b: &[u8]) -> std::io::Result<usize> {
+        let n = b.len().min(self.k);
+        self.buf.extend_from_slice(&b[..n]);
+        Ok(n)
+    }
+    fn flush(&mut self) -> std::io::Result<()> { Ok(()) }
+}
+/// `GdsLibrary::write` into a sink that accepts `k` bytes per call
+pub fn write_bytes_chunky(lib: &GdsLibrary, k: usize) -> Result<Vec<u8>, ()> {
+    let mut sink = ChunkySink { buf: Vec::new(), k };
+    match lib.write(&mut sink) {
+        Ok(()) => Ok(sink.buf),
+        Err(_) => Err(()),
+    }
+}
 pub fn op_write(args: &[Sexp]) -> String {
     let lib = match args.get(0).and_then(p_lib) {
         Some(l) => l,
